@@ -152,30 +152,29 @@ structure Outcome where
   status : List (Bytes × Bytes)
   raised : Option Exc
 
-/-- non-atomic branch: `for oldsha, sha, ref in refs:` hook, then update -/
-def plainLoop (fl : Flags) (env : Env) (caps : List Bytes) : Srv → List Cmd → Outcome
+/-- the common shape of the two update loops: `for oldsha, sha, ref in refs: … yield (ref, ref_status)`;
+an escaping exception ends the generator (the statuses yielded so far are lost with it) -/
+def runLoop (step : Srv → Cmd → Except Exc (Srv × Bytes)) : Srv → List Cmd → Outcome
   | s, [] => ⟨s, [], none⟩
   | s, c :: cs =>
-    match hookError env c with
-    | some msg =>
-      let o := plainLoop fl env caps s cs
-      ⟨o.srv, (c.name, msg) :: o.status, o.raised⟩
-    | none =>
-      match updateRef fl env caps true s c with
-      | .error e => ⟨s, [], some e⟩
-      | .ok (s', m) =>
-        let o := plainLoop fl env caps s' cs
-        ⟨o.srv, (c.name, m) :: o.status, o.raised⟩
-
-/-- atomic branch, apply loop (no hooks, no delete-refs test) -/
-def atomicApply (fl : Flags) (env : Env) (caps : List Bytes) : Srv → List Cmd → Outcome
-  | s, [] => ⟨s, [], none⟩
-  | s, c :: cs =>
-    match updateRef fl env caps false s c with
+    match step s c with
     | .error e => ⟨s, [], some e⟩
     | .ok (s', m) =>
-      let o := atomicApply fl env caps s' cs
+      let o := runLoop step s' cs
       ⟨o.srv, (c.name, m) :: o.status, o.raised⟩
+
+/-- non-atomic branch, one iteration: update hook, then the update with the delete-refs test -/
+def plainStep (fl : Flags) (env : Env) (caps : List Bytes) (s : Srv) (c : Cmd) : Except Exc (Srv × Bytes) :=
+  match hookError env c with
+  | some msg => .ok (s, msg)
+  | none => updateRef fl env caps true s c
+
+def plainLoop (fl : Flags) (env : Env) (caps : List Bytes) : Srv → List Cmd → Outcome :=
+  runLoop (plainStep fl env caps)
+
+/-- atomic branch, apply loop (no hooks, no delete-refs test) -/
+def atomicApply (fl : Flags) (env : Env) (caps : List Bytes) : Srv → List Cmd → Outcome :=
+  runLoop (updateRef fl env caps false)
 
 /-- atomic branch, validation of one command: `(ref_status, has_failure)` or the escaping
 GitProtocolError.  As coded only the hook and the delete capability are looked at; with
@@ -422,7 +421,7 @@ def localSendPack (snap : Refs) (t : LocalRepo) (atomic : Bool) (packIds : List 
     let t1 : LocalRepo := { t with store := t.store.add packIds }
     let pre := cmds.map (fun c => (c.1, localPrecheck snap t1 c))
     if atomic && pre.any (fun p => p.2.isSome) then
-      (t1, some (pre.map (fun p => (p.1, some (p.2.getD .atomicFailed)))))
+      (t1, some (pre.map (fun p => (p.1, some (match p.2 with | some m => m | none => .atomicFailed)))))
     else
       let (tf, st) := localApply snap t1 cmds
       (tf, some st)
